@@ -42,4 +42,24 @@ def wrapper(case):
                 lb, ub = np.broadcast_to(bounds[0], x.shape), np.broadcast_to(bounds[1], x.shape)
                 if any(np.any(p < lb - 1e-15) or np.any(p > ub + 1e-15) for p in pts):
                     bad.append(dict(what='evaluation outside the box', method=method, bounds=str(bounds)[:80]))
+    # one object called several times: every call differentiates f(x, <that call's extra arguments>)
+    w = np.array([1.0, -2.0, 0.5])
+    for klass, f in (('Jacobian', lambda z, c=1.0, shift=0.0: c * w * z + shift), ('Gradient', lambda z, c=1.0, shift=0.0: c * np.sum(w * z * z) + shift)):
+        for method in ('central', 'forward', 'complex'):
+            obj = getattr(ns, klass)(f, method=method)
+            x = np.array([0.3, 1.1, -0.7])
+            want = (lambda c: np.diag(c * w)) if klass == 'Jacobian' else (lambda c: 2 * c * w * x)
+            for call, c in (((x, 3.0), 3.0), ((x,), 1.0), ((x, 2.0), 2.0)):
+                got = obj(*call)
+                if not np.allclose(got, want(c), rtol=1e-5, atol=1e-6):
+                    bad.append(dict(what='%s object re-used: call %d arguments' % (klass, len(call) - 1), method=method, extra_args=call[1:], got=np.asarray(got).tolist(),
+                                    expected=np.asarray(want(c)).tolist()))
+    # Gradient of an x with several axes: variables in index order for every memory layout
+    wm = np.arange(1.0, 7.0).reshape(2, 3)
+    X = np.array([[0.3, -1.2, 2.0], [0.7, 1.1, -0.4]])
+    for name, Xv in (('C', X), ('F', np.asfortranarray(X)), ('transposed-view', np.ascontiguousarray(X.T).T)):
+        for method in ('central', 'complex'):
+            g = ns.Gradient(lambda z: np.sum(wm.ravel() * np.ravel(z) ** 2), method=method)(Xv)
+            if np.shape(g) != (6,) or not np.allclose(g, (2 * wm * X).ravel(), rtol=1e-5, atol=1e-6):
+                bad.append(dict(what='Gradient of a 2-d x', layout=name, method=method, got=np.asarray(g).tolist(), expected=(2 * wm * X).ravel().tolist()))
     return dict(reproduced=bool(bad), failing=bad[:4])
